@@ -30,3 +30,17 @@ Print Assumptions C16_rollout_schema.
 Theorem C16_schema_rejects_missing_list : schema_flag (JObj [(s "key", JStr [])]) = false.
 Proof. reflexivity. Qed.
 Print Assumptions C16_schema_rejects_missing_list.
+
+(* the property names in the source (gen/Tables.v, regenerated on every run): every legacy property is written by the
+   encoder, and the model's names are the source's *)
+From LD Require Import TablesProof.
+From LDGen Require Import Tables.
+From Coq Require Import String.
+Theorem C16_legacy_properties_are_written : forallb (fun p => mem_s p written_properties) legacy_required = true.
+Proof. exact legacy_properties_are_written. Qed.
+Print Assumptions C16_legacy_properties_are_written.
+Theorem C16_model_names_are_source_names :
+  forallb (fun p => mem_s p read_properties && mem_s p written_properties)
+          (flag_names ++ segment_names ++ clause_names ++ target_names ++ rule_names)%list = true.
+Proof. exact model_property_names_are_the_source_names. Qed.
+Print Assumptions C16_model_names_are_source_names.
